@@ -12,7 +12,7 @@ SLACK_MS = 6000
 
 def settings(rng, m):
     return {"iterations": rng.choice([0, 1, 7, 50, 300, 300, -1]), "duration_ms": rng.choice([0, 40, 300, 1200]),
-            "runs": rng.choice([1, 2, 4, 16, 40, -1]), "starts": rng.choice([0, 1, 3]),
+            "runs": rng.choice([1, 2, 4, 16, 40, -1, 0, 0, -2]), "starts": rng.choice([0, 1, 3]),
             "det": rng.choice([0, 1]), "repeat": 1, "snap": 0, "cancel_ms": rng.choice([-1, -1, 0, 15, 150])}
 
 
@@ -141,7 +141,7 @@ def run(tier, seed, replay=None):
     combos = {tuple(sorted(c["settings"].items())) for c in cases}
     chk.ev.cov.update({
         "evaluations": len(runs), "distinct_nontrivial": len(combos),
-        "rule": "generated inputs x option grid: iterations {0,1,7,50,300,unlimited}, duration {0,40,300,1200} ms, runs {1,2,4,16,40,-1}, "
+        "rule": "generated inputs x option grid: iterations {0,1,7,50,300,unlimited}, duration {0,40,300,1200} ms, runs {1,2,4,16,40,-1,0 (the zero value of the options struct),-2}, "
                 "starts {0,1,3}, deterministic on/off, caller cancellation {none,0,15,150} ms; distinct = distinct option tuples",
         "traces_validated_against_impl": len(runs),
         "samples": [c["settings"] for c in cases[:3]],
